@@ -1142,6 +1142,14 @@ class GrammarBuilder:
         if name.startswith('__'):
             self._grammar_error(is_term, 'Names starting with double-underscore are reserved (Error at {name})', name)
 
+        if override and is_term:
+            # Terminals of an imported grammar that use this terminal already hold its tree (see resolve_term_references).
+            # Replace its contents, so that they see the new definition too. (%extend also changes the tree in place)
+            old_exp = self._definitions[name].tree
+            if isinstance(old_exp, Tree) and isinstance(exp, Tree) and old_exp.data == exp.data:
+                old_exp.children[:] = exp.children
+                exp = old_exp
+
         self._definitions[name] = Definition(is_term, exp, params, self._check_options(is_term, options))
 
     def _extend(self, name, is_term, exp, params=(), options=None):
